@@ -20,6 +20,7 @@ RAW_BAD = ("bad",)             # renders as "(": a syntax error wherever a real 
 KINDS = {
     "if1": L("if", expr=("num", 1)), "if0": L("if", expr=("num", 0)),
     "ifX": L("if", expr=("id", "X")), "ifXeq": L("if", expr=XEQ),
+    "ifXm1": L("if", expr=("minus1", "X")), "elifXm1": L("elif", expr=("minus1", "X")),   # `X -1`: valid for an empty X too
     "ifdefX": L("ifdef", name="X"), "ifndefX": L("ifndef", name="X"),
     "elif1": L("elif", expr=("num", 1)), "elif0": L("elif", expr=("num", 0)),
     "elifX": L("elif", expr=("id", "X")), "elifdefX": L("elif", expr=("defined", "X")),
@@ -28,9 +29,9 @@ KINDS = {
     "defX1": L("define", name="X", value="1"), "defX3": L("define", name="X", value="3"),
     "undefX": L("undef", name="X"), "code": L("code"),
 }
-OPEN = {"if1", "if0", "ifX", "ifXeq", "ifdefX", "ifndefX"}
-CONT = {"elif1", "elif0", "elifX", "elifdefX", "elifbad", "else"}
-SMALL = ["if1", "if0", "ifX", "ifdefX", "elif1", "elif0", "elifX", "elifbad", "else", "endif", "defX1", "undefX", "code"]
+OPEN = {"if1", "if0", "ifX", "ifXeq", "ifXm1", "ifdefX", "ifndefX"}
+CONT = {"elif1", "elif0", "elifX", "elifXm1", "elifdefX", "elifbad", "else"}
+SMALL = ["if1", "if0", "ifX", "ifXm1", "ifdefX", "elif1", "elif0", "elifX", "elifbad", "else", "endif", "defX1", "undefX", "code"]
 
 
 def sequences(maxlen, kinds):
@@ -61,7 +62,7 @@ def sequences(maxlen, kinds):
 def chain_programs(rng, count):
     """nested chains of depth 2 with code in every branch (the shapes where a stale
     branch stack or a mis-parented node shows)"""
-    conds = ["1", "0", "X"]
+    conds = ["1", "0", "X", "Xm1"]
 
     def chain(depth):
         seq = ["if" + rng.choice(conds)]
@@ -90,9 +91,9 @@ class Composition:
 
     def bound(self, tier):
         if tier == "quick":
-            return ("every well-nested program of <= 4 lines over 13 directive kinds + 1500 seeded random nested chains "
-                    "(depth <= 3) + 1500 random programs of 5..8 lines over 17 kinds; each for 5 platforms in one run, two platform orders")
-        return ("every well-nested program of <= 6 lines over 13 kinds and <= 5 lines over 17 kinds + 20000 random nested "
+            return ("every well-nested program of <= 4 lines over 14 directive kinds + 1500 seeded random nested chains "
+                    "(depth <= 3) + 1500 random programs of 5..8 lines over 19 kinds; each for 5 platforms in one run, two platform orders")
+        return ("every well-nested program of <= 6 lines over 14 kinds and <= 5 lines over 19 kinds + 20000 random nested "
                 "chains + 20000 random programs of 6..9 lines; 5 platforms per run, two platform orders")
 
     def inputs(self, tier, seed):
@@ -160,7 +161,57 @@ class Composition:
         return {"seq": j["seq"], "rev": j.get("rev", False)}
 
 
+class Traversal:
+    """Node.visit / Node.walk on random trees with a visitor that prunes at random nodes, against a reference preorder"""
+    proved = True
+
+    def bound(self, tier):
+        return ("200" if tier == "quick" else "5000") + " seeded random trees of <= 12 nodes, random pruning answers"
+
+    def inputs(self, tier, seed):
+        rng = random.Random(seed)
+        for _ in range(200 if tier == "quick" else 5000):
+            n = rng.randint(1, 12)
+            yield {"parents": [rng.randrange(i) for i in range(1, n)], "prune": [rng.random() < 0.3 for _ in range(n)]}
+
+    def nontrivial(self, inp):
+        return len(inp["parents"]) >= 2
+
+    def check(self, inp):
+        from codebasin.preprocessor import CodeNode, Visit
+        n = len(inp["parents"]) + 1
+        nodes = [CodeNode() for _ in range(n)]
+        kids = [[] for _ in range(n)]
+        for i, p in enumerate(inp["parents"], start=1):
+            nodes[p].add_child(nodes[i])
+            kids[p].append(i)
+        index = {id(x): i for i, x in enumerate(nodes)}
+
+        def ref(i, pruned):
+            out = [i]
+            if not (pruned and inp["prune"][i]):
+                for c in kids[i]:
+                    out += ref(c, pruned)
+            return out
+        seen = []
+
+        def visitor(node):
+            seen.append(index[id(node)])
+            return Visit.NEXT_SIBLING if inp["prune"][index[id(node)]] else Visit.NEXT
+        try:
+            nodes[0].visit(visitor)
+            walked = [index[id(x)] for x in nodes[0].walk()]
+        except BaseException as e:      # noqa: BLE001
+            return {"expected": "traversal succeeds", "observed": f"{type(e).__name__}: {e}", "klass": "traversal:raises"}
+        if seen != ref(0, True):
+            return {"expected": f"visit order {ref(0, True)}", "observed": f"{seen}", "klass": "traversal:visit-order"}
+        if walked != ref(0, False):
+            return {"expected": f"walk order {ref(0, False)}", "observed": f"{walked}", "klass": "traversal:walk-order"}
+        return None
+
+
 _comp = Composition()
 TARGETS = {
     "codebasin.finder:ParserState.associate.<locals>.associator": _comp,
+    "codebasin.preprocessor:Node.visit": Traversal(),
 }
